@@ -288,6 +288,22 @@ def run(pid, tier, replay=None):
         v.cov["states"] += r["distinct"]
         v.cov["transitions"] += r["states"]
         v.notes["listfwd_design_states"] = r["distinct"]
+    if pid == "C04" and not replay:
+        # design level: every interleaving of the contract's actions on one fiber (4 frames, 3 handlers, 2 nested loops) keeps
+        # HandlersNest, CaughtInsideLoop and SearchDecided; with the pinned tree's rule (a handler AT the bottom frame of a nested
+        # loop is taken) TLC must refute CaughtInsideLoop - the invariant has teeth
+        r = vlib.tlc("MC_Unwind", "MC_Unwind", workers=2, timeout=900)
+        if "No error has been found" not in r["out"]:
+            if "is violated" in r["out"]:
+                v.violation("Unwind.tla: the contract's own invariants are violated", {"tlc": r["out"][-3000:]})
+            else:
+                raise vlib.ToolError("TLC on Unwind.tla did not complete:\n" + r["out"][-1500:])
+        v.cov["states"] += r["distinct"]
+        v.cov["transitions"] += r["states"]
+        v.notes["unwind_design_states"] = r["distinct"]
+        r = vlib.tlc("MC_Unwind", "MC_Unwind_old", workers=2, timeout=900)
+        if "Invariant CaughtInsideLoop is violated" not in r["out"]:
+            raise vlib.ToolError("control failed: TLC does not refute the pinned tree's unwind rule:\n" + r["out"][-1500:])
     if pid in UNWIND_PIDS:
         # every run's frame / handler / nested loop events against the contract Unwind.tla
         byid = {vc["id"] + "|" + vc["_rep"]: vc for vc in vmcases}
